@@ -110,7 +110,7 @@ Spec == Init /\ [][Next]_vars
 ---------------------------------------------------------------------------
 (* The definition the object holds now (or would hold if constructed now) *)
 
-CurDef == [ns |-> NS, np |-> NP, nd |-> ND, n |-> NSym, atoms |-> Atoms, derived |-> Derived,
+CurDef == [ns |-> NS, np |-> NP, npx |-> NP, nd |-> ND, n |-> NSym, atoms |-> Atoms, derived |-> Derived,
            events |-> slotE \o slotT \o slotB \o tail,
            odes   |-> slotO \o tailO]
 
